@@ -286,6 +286,96 @@ def feeds_from_json(js):
     return res
 
 
+# ------------------------------------------------------------------------------------------- equivalent variants
+# A failing case is attributed to a KNOWN defect class when a variant of the model that is equivalent by the ONNX
+# specification (and observed to be: same outputs on the runtimes) and merely avoids the defect no longer fails.
+
+def _nodes_deep(g):
+    for n in g.node:
+        yield n
+        for a in n.attribute:
+            if a.type == onnx.AttributeProto.GRAPH:
+                yield from _nodes_deep(a.g)
+            elif a.type == onnx.AttributeProto.GRAPHS:
+                for sg in a.graphs:
+                    yield from _nodes_deep(sg)
+
+
+def variant_keepdims(model):
+    """SplitToSequence with a `split` input ignores keepdims (ONNX operator specification): keepdims=0 -> 1."""
+    m = onnx.ModelProto()
+    m.CopyFrom(model)
+    changed = 0
+    scopes = [_nodes_deep(m.graph)] + [iter(f.node) for f in m.functions]
+    for it in scopes:
+        for n in it:
+            if n.op_type == "SplitToSequence" and n.domain in ("", "ai.onnx") and len(n.input) >= 2 and n.input[1]:
+                for a in n.attribute:
+                    if a.name == "keepdims" and not a.ref_attr_name and a.i == 0:
+                        a.i = 1
+                        changed += 1
+    return m if changed else None
+
+
+def specialize_ref_attrs(model, skip=()):
+    """Reference attributes of the bodies of functions that are called exactly once (from the main graph) replaced by
+    the attribute values of that call.  -> (model', set of 'Op.attr' replaced)"""
+    m = onnx.ModelProto()
+    m.CopyFrom(model)
+    calls = {}
+    for n in _nodes_deep(m.graph):
+        calls.setdefault((n.domain, n.op_type), []).append(n)
+    for f in m.functions:
+        for n in f.node:
+            calls.setdefault((n.domain, n.op_type), []).append(None)      # called from a function: not specialised
+    changed = set()
+    for f in m.functions:
+        cs = calls.get((f.domain, f.name), [])
+        if len(cs) != 1 or cs[0] is None:
+            continue
+        given = {a.name: a for a in cs[0].attribute}
+        for n in f.node:
+            for a in n.attribute:
+                tag = f"{n.op_type}.{a.name}"
+                if a.ref_attr_name and a.ref_attr_name in given and tag not in skip:
+                    new = onnx.AttributeProto()
+                    new.CopyFrom(given[a.ref_attr_name])
+                    new.name = a.name
+                    a.CopyFrom(new)
+                    changed.add(tag)
+    return m, changed
+
+
+def _same_as_base(model, case, base):
+    for name, fn in R.RUNTIMES:
+        if base[name] is None:
+            continue
+        st, out = fn(model, case.feeds)
+        if st != "ok" or any(R.compare_outputs(w, g, case.exact) is not None for w, g in zip(base[name], out)):
+            return False
+    return True
+
+
+def known_class_by_variant(case, base, entry, opts, as_ir, failing):
+    """-> list of keys of known defect classes that explain the failure (empty: none does)."""
+    def passes(variant):
+        try:
+            return not failing(R.apply_entry(entry, variant, opts, as_ir))
+        except Exception:
+            return False
+    try:
+        v = variant_keepdims(case.model)
+        if v is not None and _same_as_base(v, case, base) and passes(v):
+            return ["C03:fold:split-to-sequence:keepdims-honoured-although-split-is-given"]
+        v, pairs = specialize_ref_attrs(case.model)
+        if pairs and _same_as_base(v, case, base) and passes(v):
+            needed = [p for p in sorted(pairs) if not passes(specialize_ref_attrs(case.model, skip=(p,))[0])]
+            return [f"C03:fold:reference-attribute-read-as-absent:{p}" for p in (needed or sorted(pairs))]
+    except Exception:
+        pass
+    return []
+
+
 # ------------------------------------------------------------------------------------------- differential oracle (C03)
 
 def run_plan(rng, tier, case):
@@ -362,6 +452,13 @@ def differential(ctx, case, base, plan, stats):
                 continue
         stage = attribute_stage(case, entry, opts, as_ir, failing)
         structural = known_structural_class(case.model, m2) if kind == "optimized-model-fails" else None
+        by_variant = known_class_by_variant(case, base, entry, opts, as_ir, failing) if structural is None else []
+        if by_variant:
+            for key in by_variant:
+                ctx.violation(key, f"{entry}{'(ir.Model)' if as_ir else ''} opts={opts}: {rt} outputs of the optimized model differ from the original: {detail}",
+                              replay_doc(case, entry, opts, as_ir, {"runtime": rt, "detail": str(detail)[:300], "stage": stage}))
+            stats["violations"] += 1
+            continue
         if "Required inputs" in str(detail) and case.overridable:
             key = "C03:initializer-input:default-removed"
         elif structural is not None:
